@@ -7,12 +7,12 @@ namespace KinModel.Marshal
 
 /-- Go type class of a struct field: decides the zero value and what JSON `null` does. -/
 inductive TC | str | bool | uint | ptr | slice | map | nmap | iface | value | addProps | unknown
-  deriving DecidableEq, Repr
+  deriving DecidableEq, Repr, Inhabited
 
 /-- class of the condition guarding `m["k"] = x` in a map-building marshaller -/
 inductive Guard
   | always | neEmptyStr | isTrue | neZero | neNil | lenNe0 | addProps | unknown (txt : String)
-  deriving DecidableEq, Repr
+  deriving DecidableEq, Repr, Inhabited
 
 /-- what a field's value is, as far as the round trip is concerned -/
 inductive Shape
@@ -27,23 +27,23 @@ inductive Shape
   | types                    -- openapi3.Types: one string or a list of strings
   | addProps                 -- AdditionalProperties: bool or schema
   | unknown (txt : String)
-  deriving DecidableEq, Repr
+  deriving DecidableEq, Repr, Inhabited
 
 inductive Template | struct | ref | maplike | alias
-  deriving DecidableEq, Repr
+  deriving DecidableEq, Repr, Inhabited
 
 structure Field where
   key : String
   goName : String
   tc : TC
   shape : Shape
-  deriving DecidableEq, Repr
+  deriving DecidableEq, Repr, Inhabited
 
 structure MField where
   key : String
   goName : String
   guard : Guard
-  deriving DecidableEq, Repr
+  deriving DecidableEq, Repr, Inhabited
 
 structure Desc where
   name : String
@@ -69,6 +69,6 @@ structure Desc where
   valueNilSafe : Bool
   post : List String
   unrecognised : List String
-  deriving Repr
+  deriving Repr, Inhabited
 
 end KinModel.Marshal
